@@ -67,6 +67,8 @@ THEOREMS = [
     "Lena.C10.mapGroup_same_object_iff",
     "Lena.C10.pdf_unselected_step",
     "Lena.C10.pdf_unselected_same_objects_in_order",
+    "Lena.C10.pdf_unselected_touches_only_pool_files",
+    "Lena.C10.keysOK_of_keysOKb",
     "Lena.C10.pdf_selected_multiset",
     "Lena.C10.pdf_selected_independent",
     "Lena.C10.pdf_loop_spec",
@@ -86,7 +88,10 @@ TRUSTED = [
     "JSON line protocol encoders (harness/props/c10.py, drivers/C10.lean)",
 ]
 ASSUMPTIONS = [
-    "locality: distinct flow values do not share mutable context objects (the generated values never do)",
+    "locality: distinct flow values do not share mutable context objects (the generated values never do; a value "
+    "yielded twice by an inner sequence and then mutated downstream is outside the model)",
+    "pipelines: every modelled element finishes the side effects of a step before its first yield, so a Sequence is "
+    "modelled at the granularity of blocks (pipeStep); validated by the correspondence on 8 pipelines",
     "payload abstraction: the text of a produced CSV/LaTeX value, the points of a produced graph, and the context "
     "entries histogram/value/bins/bin/group are uninterpreted in the model (compared between the two real runs by "
     "the oracle, not with the model)",
@@ -94,13 +99,16 @@ ASSUMPTIONS = [
     "is an explicit schedule (per process: the iteration from which poll() reports termination, the return code)",
     "LaTeXToPDF: selected values of one flow have pairwise different file names",
 ]
-RULE = ("per element configuration (10 elements, several constructor settings / selectors / inner sequences each): "
-        "lists A (values the element's documented rule selects, error-raising ones included) and B (values it does "
-        "not select: numbers, strings, None, floats, tuples, lists, bytes, bare dicts, foreign objects, pairs with "
-        "unrelated context, pairs with disabling context, histograms of the wrong kind) drawn from fixed palettes "
-        "with ctx.rng; for every drawn (A, B) with |A|,|B| <= 3 ALL interleaving patterns are enumerated "
-        "(exhaustive up to 3+3); thorough adds random patterns with |A|,|B| <= 6.  Non-trivial: at least one "
-        "value of A and one of B in the flow.")
+RULE = ("per element configuration (the 10 elements with several constructor settings / selectors / inner sequences "
+        "each, 8 pipelines Sequence(E1,...,En) of them, and LaTeXToPDF / PDFToPNG once more with real converter "
+        "processes): lists A (values the element's documented rule selects, error-raising ones included) and B (values "
+        "it does not select: numbers, strings, None, floats, tuples, lists, bytes, bare dicts, foreign objects, pairs "
+        "with unrelated context, pairs with disabling context such as output.write/to_csv False, histograms of the "
+        "wrong kind) are drawn from fixed palettes with ctx.rng; (1) every palette value once with a value of the "
+        "other kind, both orders; (2) for drawn (A, B) with |A|,|B| <= 3 (1-2 draws per size pair in quick, 12 in "
+        "thorough) ALL interleaving patterns are enumerated (exhaustive up to 3+3); (3) thorough adds random "
+        "patterns with |A|,|B| <= 6.  Quick keeps a cross of the 54 RunIf selector x inner-sequence settings. "
+        "Non-trivial: at least one value of A and one of B in the flow.")
 CASE_TIMEOUT = 20
 
 OPAQUE_KEYS = ("histogram", "value", "bins", "bin", "group")
@@ -1647,7 +1655,8 @@ def gen_cases(ctx):
                         cases.append(_mk_case(el, fs, A, B, pat, rng))
         # 2. all interleavings of drawn lists with |A|, |B| <= 3
         for (na, nb) in sizes:
-            for d in range(1 if real else draws):
+            many = el["k"] in ("runif", "mapbins", "mapgroup")     # many settings of these: one draw each in quick
+            for d in range(1 if real or (quick and many) else draws):
                 if real and (na + nb > 4 or na == 0):
                     continue
                 ids = _Ids()
